@@ -719,10 +719,88 @@ def rule_bdd34(prog, found):
     return r3, r4
 
 
+def rule_bdd5(prog):
+    """list orderings: equality is equality of the sequences, in_order is
+    the index order, membership is membership -- on concrete small lists
+    (the constructor loop is unrolled by the interpreter)"""
+    r = RuleResult('R-BDD-5', 'ListOrdering: == iff same sequence, '
+                   'in_order == index order, `in` == membership')
+    oc = prog.cls('BDD.ordering.Ordering')
+    lo = prog.cls('BDD.ordering.ListOrdering')
+    lists = [[], ['a'], ['a', 'b'], ['b', 'a'], ['a', 'b', 'c'],
+             ['c', 'a', 'b'], ['a', 'c'], ['a', 'b', 'd']]
+
+    def build(I, path, lst):
+        coll = I._mk_coll('list', [Const(x) for x in lst], path, None)
+        res = I.construct(oc, [coll], [], path, None)
+        res = [(p, v) for (p, v) in res if not isinstance(v, Raise)]
+        if len(res) != 1:
+            raise Inconclusive('R-BDD-5', 'Ordering(%r) has %d outcomes' % (
+                lst, len(res)), '')
+        return res[0]
+    bad = None
+    n = 0
+    for l1 in lists:
+        for l2 in lists:
+            n += 1
+            I = Interp(prog, Hooks(), rule='R-BDD-5')
+            path = I.new_path()
+            path, o1 = build(I, path, l1)
+            path, o2 = build(I, path, l2)
+            res = I.compare('==', o1, o2, path, None)
+            vals = set(v.v if isinstance(v, Const) else repr(v)
+                       for (p, v) in res)
+            if vals != {l1 == l2} and bad is None:
+                bad = ('==', l1, l2, sorted(map(str, vals)), l1 == l2)
+            res = I.compare('!=', o1, o2, path, None)
+            vals = set(v.v if isinstance(v, Const) else repr(v)
+                       for (p, v) in res)
+            if vals != {l1 != l2} and bad is None:
+                bad = ('!=', l1, l2, sorted(map(str, vals)), l1 != l2)
+    for l1 in lists:
+        I = Interp(prog, Hooks(), rule='R-BDD-5')
+        path = I.new_path()
+        path, o1 = build(I, path, l1)
+        for x in ['a', 'b', 'c', 'z']:
+            n += 1
+            res = I.contains(o1, Const(x), path, None)
+            vals = set(v.v if isinstance(v, Const) else repr(v)
+                       for (p, v) in res)
+            if vals != {x in l1} and bad is None:
+                bad = ('in', x, l1, sorted(map(str, vals)), x in l1)
+            for y in l1:
+                if x not in l1:
+                    continue
+                n += 1
+                f = prog.method(lo, 'in_order')
+                rr = I.call_function(FRef(f), [o1, Const(x), Const(y)], [],
+                                     path.fork(), f.node)
+                vals = set(v.v if isinstance(v, Const) else repr(v)
+                           for (p, v) in rr)
+                want = l1.index(x) < l1.index(y)
+                if vals != {want} and bad is None:
+                    bad = ('in_order', (x, y), l1, sorted(map(str, vals)),
+                           want)
+    r.inst(cls=lo.short(), cases=n)
+    if bad:
+        f = prog.method(lo, '__eq__')
+        r.fail(Finding(
+            PROP, 'R-BDD-5', f.where(), lo.short(),
+            'ordering-%s' % bad[0],
+            'ListOrdering: %s of %r and %r evaluates to %s, expected %s '
+            '(two orderings over the same variables in a different sequence '
+            'would be combined without RuntimeError)' % bad,
+            expected=bad[4], found=bad[3]))
+    else:
+        r.ok()
+    return r
+
+
 def run(prog, tier, seed):
     r1, found = rule_bdd1(prog, tier)
     r2 = rule_bdd2(prog, found)
     r3, r4 = rule_bdd34(prog, found)
+    r5 = rule_bdd5(prog)
     expl = ('The recursion steps of apply (discovered from OBDD.apply), '
             'restrict and negation are interpreted abstractly with the '
             'recursive calls kept symbolic; each extracted step -- with the '
@@ -743,4 +821,4 @@ def run(prog, tier, seed):
                    'checked on all operand pairs over 2 (quick) / a sample '
                    'over 3 (thorough) variables',
                    'node construction is hash-consed (C16)']
-    return [r1, r2, r3, r4], expl, assumptions, {}
+    return [r1, r2, r3, r4, r5], expl, assumptions, {}
